@@ -18,6 +18,7 @@ from mdmc import core, families, trees
 from mdmc.engines import schedx
 
 ID = "C09"
+FRESH_PROCESS_PER_UNIT = True
 TITLE = "Results are reproducible: a function of input, depth and configuration only"
 
 PAIRS = [
@@ -28,7 +29,11 @@ PAIRS = [
 ]
 BOUND = {"quick": {0: 1, 1: 1, 2: 1, 3: 1}, "thorough": {0: 2, 1: 2, 2: 1, 3: 1}}
 CHUNK = {"quick": 64, "thorough": 12}
-HIST_INPUTS = [b'x strlen "a.e"+"xe" y', b"x cmd /c ping 8.8.4.4 http://a.com/b.exe bob@example.org StrLen \\\\a.com\\abc\\x.dll 'a'+'b'", b"cmd /c p^owershell -e ZQBjAGgAbwAgAGIAZQBlAA==", b"http://ex%61mple.com/a 8.8.4.4 StrLen", b"aHR0cDovL2V4YW1wbGUuY29tL2EuZXhlIDguOC40LjQ="]
+_B64_2 = b"YUhSMGNEb3ZMMlY0WVcxd2JHVXVZMjl0TDJFdVpYaGxJRGd1T0M0MExqUT0="  # base64(base64("http://example.com/a.exe 8.8.4.4"))
+HIST_INPUTS = [b'x strlen "a.e"+"xe" y', b"x cmd /c ping 8.8.4.4 http://a.com/b.exe bob@example.org StrLen \\\\a.com\\abc\\x.dll 'a'+'b'",
+               b"cmd /c p^owershell -e ZQBjAGgAbwAgAGIAZQBlAA==", b"run " + _B64_2 + b" and again " + _B64_2, b"see www.Contoso.com and files.Fabrikam.net now",
+               b"see www.contoso.com and files.fabrikam.net now"]
+HIST_EVENTS = [(i, k) for i in range(len(HIST_INPUTS)) for k in (10, 2)] + [(3, 1), (3, 3)]
 HIST_DEPTH = {"quick": 3, "thorough": 4}
 WITNESS = [b"call strlen and StrLen then STRLEN; AutoOpen cmd windows http user-agent", b'"str" & "len" strlen', b"x StrLen(y) + powershell -e ZQBjAGgAbwAgAGIAZQBlAA=="]
 SEEDS = {"quick": range(0, 4), "thorough": range(0, 16)}
@@ -42,9 +47,9 @@ def describe(tier):
             "`line` event in multidecoder frames is a scheduling point; ALL schedules with <= B preemptions are executed (iterative context bounding, B per "
             f"harness = {BOUND[tier]}); oracle: each thread's tree equals the tree of the same input computed sequentially beforehand, and a sequential "
             "scan on the shared scanner afterwards is still correct; a replayed prefix that diverges is a hard error. (2) Histories: BFS over ALL sequences "
-            f"of <= {HIST_DEPTH[tier]} scan calls on one instance from {len(HIST_INPUTS)} inputs; a state is the hash of every mutable object reachable from the scanner and "
+            f"of <= {HIST_DEPTH[tier]} scan events on one instance from {len(HIST_EVENTS)} events = (one of {len(HIST_INPUTS)} inputs incl. nested base64 and case variants of one domain) x (depth limit 10 / 2 / 1 / 3); a state is the hash of every mutable object reachable from the scanner and "
             "from multidecoder.* module globals (lists, dicts, sets, defaults, closures, functools caches); every transition's result must equal the "
-            "fresh-scanner result. (2b) every input of the mix/shell/net/concat/kw scan-level families is scanned twice in a row on one long-lived scanner and the two trees must be equal. (3) Enumeration orders: ALL permutations of the iteration order of every keyword set and of every directory listing "
+            "fresh-scanner result. (2b) every input of the mix/shell/net/concat/kw scan-level families is scanned at depth 10, 1, 10 on one long-lived scanner: first and third tree must be equal and the depth-1 tree must equal that of a scanner only ever used at depth 1. (3) Enumeration orders: ALL permutations of the iteration order of every keyword set and of every directory listing "
             "of the fixture keyword directory (seams: multidecoder.registry.set, os.walk), and for the shipped keywords ALL relative orders of the files of "
             "every group of files that share a word ignoring case; the trees of witness inputs must all be equal. (4) Processes: the same witness inputs "
             f"and the CLI in fresh processes under PYTHONHASHSEED {list(SEEDS[tier])[0]}..{list(SEEDS[tier])[-1]} must give byte-identical JSON, equal to the in-process result. "
@@ -88,7 +93,7 @@ def plan(tier, seed):
         step = CHUNK[tier] if BOUND[tier][pi] >= 2 else 64
         for lo in range(0, n, step):
             units.append(("threads", tier, pi, lo, min(n, lo + step)))
-    units.append(("history", tier))
+    units += [("history", tier, i, 7) for i in range(7)]
     from mdmc.engines import streams
     units += [("twice", u) for u in streams.plan(tier, lite=1 if tier == "quick" else 0, fams=["mix", "shell", "net", "concat", "kw"])]
     units += [("orders-fixture", i, 8) for i in range(8)]
@@ -215,47 +220,69 @@ def snapshot(md):
     return core.h64(repr(parts))
 
 
-def run_history(rec, tier):
+FRESH_CHILD = r"""
+import sys, json
+sys.path.insert(0, sys.argv[1]); sys.path.insert(1, sys.argv[2])
+from multidecoder.multidecoder import Multidecoder
+from multidecoder.registry import build_registry
+from mdmc import trees, core
+data = bytes.fromhex(sys.argv[4])
+print(json.dumps(core.jsonable(trees.tup(Multidecoder(build_registry(sys.argv[3])).scan(data, int(sys.argv[5]))))))
+"""
+
+
+def fresh_process_scan(data, k):
+    r = subprocess.run([sys.executable, "-c", FRESH_CHILD, core.REPO_SRC, core.VERIF, families.FIXTURE_KW, data.hex(), str(k)], capture_output=True, text=True, timeout=300)
+    if r.returncode != 0:
+        raise core.HarnessError("fresh-process scan failed: " + r.stderr[-300:])
+    return _totuple(core.unjson(json.loads(r.stdout)))
+
+
+def _totuple(x):
+    return tuple(_totuple(v) for v in x) if isinstance(x, list) else x
+
+
+def run_history(rec, tier, part=0, nparts=1):
+    """BFS over all sequences of <= D scan events (input, depth limit) on ONE scanner; unit `part` owns the sequences whose first event
+    index is congruent to part."""
     reg = mdreg.build_registry(families.FIXTURE_KW)
-    fresh = {d: trees.tup(Multidecoder(mdreg.build_registry(families.FIXTURE_KW)).scan(d)) for d in HIST_INPUTS}
+    # the reference result of every event comes from its own fresh PROCESS: a module-level cache would make an in-process "fresh scanner" stale
+    fresh = {}
+    for (i, k) in HIST_EVENTS:
+        fresh[(i, k)] = fresh_process_scan(HIST_INPUTS[i], k)
     D = HIST_DEPTH[tier]
 
     def build(hist):
         md = Multidecoder(reg)
-        outs = [trees.tup(md.scan(HIST_INPUTS[i])) for i in hist]
+        outs = [trees.tup(md.scan(HIST_INPUTS[HIST_EVENTS[e][0]], HIST_EVENTS[e][1])) for e in hist]
         return md, outs
 
     md0, _ = build(())
-    s0 = snapshot(md0)
-    seen = {s0}
-    frontier = [()]
-    rec.mark("states", ("hist", s0))
+    seen = {snapshot(md0)}
     n_tr = 0
+    frontier = [(e,) for e in range(len(HIST_EVENTS)) if e % nparts == part]
     for depth in range(1, D + 1):
-        nxt = []
-        for hist in frontier:
-            for ev in range(len(HIST_INPUTS)):
-                h2 = hist + (ev,)
-                rec.count("evaluations")
-                md, outs = build(h2)
-                rec.count("traces")
-                n_tr += 1
-                w = {"kind": "history", "history": list(h2)}
-                if outs[-1] != fresh[HIST_INPUTS[ev]]:
-                    rec.violation("C09.history.same-tree", f"history-changes-result|len={len(h2)}", w,
-                                  f"after the scan history {list(hist)} the scan of {HIST_INPUTS[ev]!r} returns {core.short(outs[-1], 200)}; a fresh scanner returns {core.short(fresh[HIST_INPUTS[ev]], 200)}", len(h2))
-                if depth > 1:
-                    rec.mark("nontrivial", h2)
-                k = snapshot(md)
-                rec.mark("states", ("hist", k))
-                if k not in seen:
-                    seen.add(k)
-                    nxt.append(h2)
-        # a stateless library collapses to one state with |alphabet| self-loops; to also compare the state reached from elsewhere
-        # (differential oracle) every history is still extended up to depth D
-        frontier = [h + (e,) for h in frontier for e in range(len(HIST_INPUTS))] if depth < D else []
+        for h2 in frontier:
+            rec.count("evaluations")
+            md, outs = build(h2)
+            rec.count("traces")
+            n_tr += 1
+            ev = HIST_EVENTS[h2[-1]]
+            w = {"kind": "history", "history": [list(HIST_EVENTS[e]) for e in h2]}
+            if outs[-1] != fresh[ev]:
+                rec.violation("C09.history.same-tree", f"history-changes-result|len={len(h2)}", w,
+                              f"after the scan history {w['history'][:-1]} (input index, depth limit) the scan of {HIST_INPUTS[ev[0]]!r} with depth limit {ev[1]} returns "
+                              f"{core.short(outs[-1], 200)}; a fresh scanner returns {core.short(fresh[ev], 200)}", len(h2))
+            if depth > 1:
+                rec.mark("nontrivial", h2)
+            k = snapshot(md)
+            rec.mark("states", ("hist", k))
+            seen.add(k)
+        # a stateless library collapses to one state with |alphabet| self-loops; every history is still extended to depth D so that the
+        # state reached from elsewhere is compared as well (differential oracle)
+        frontier = [h + (e,) for h in frontier for e in range(len(HIST_EVENTS))] if depth < D else []
     rec.count("transitions", n_tr)
-    rec.sample({"history_alphabet": HIST_INPUTS, "depth": D, "distinct_library_states": len(seen), "transitions": n_tr})
+    rec.sample({"history_events(input index, depth limit)": [list(e) for e in HIST_EVENTS], "depth": D, "distinct_library_states": len(seen), "transitions": n_tr})
     if len(seen) > 1:
         rec.note("library state changed during scans (more than one reachable state)")
 
@@ -454,6 +481,7 @@ def run_twice(rec, unit):
     name, tier, first, lite = unit
     fam = families.get(name)
     md = Multidecoder(streams.registry())
+    md1 = Multidecoder(streams.registry())  # only ever used at depth limit 1
     last = b""
     for level, s, unique in fam.states(tier, first, fam.L[tier] - lite):
         rec.mark("states", s, unique)
@@ -464,17 +492,20 @@ def run_twice(rec, unit):
             ok, t1 = rec.guard("C09.repeat.total", w, len(data), lambda: trees.tup(md.scan(data)))
             if not ok:
                 rec.note("scan raised (reported by C01)")
-                rec.viol.clear() if False else None
                 continue
-            ok, t2 = rec.guard("C09.repeat.total", w, len(data), lambda: trees.tup(md.scan(data)))
+            ok, ts = rec.guard("C09.repeat.total", w, len(data), lambda: (trees.tup(md.scan(data, 1)), trees.tup(md.scan(data)), trees.tup(md1.scan(data, 1))))
             if not ok:
                 continue
             rec.count("traces")
-            rec.count("transitions", 2)
+            rec.count("transitions", 4)
             if t1[5]:
                 rec.mark("nontrivial", data)
+            t_shallow, t2, t_shallow_ref = ts
             if t1 != t2:
-                rec.violation("C09.repeat.same-tree", "second-scan-differs", w, f"scanning {data!r} twice on one scanner: {core.short(t1, 160)} then {core.short(t2, 160)}", len(data))
+                rec.violation("C09.repeat.same-tree", "second-scan-differs", w, f"scanning {data!r} at depth 10, then 1, then 10 on one scanner: {core.short(t1, 160)} then {core.short(t2, 160)}", len(data))
+            if t_shallow != t_shallow_ref:
+                rec.violation("C09.repeat.same-tree", "depth-1-scan-depends-on-history", w,
+                              f"scan({data!r}, 1) after a depth-10 scan on the same scanner: {core.short(t_shallow, 160)}; on a scanner only used at depth 1: {core.short(t_shallow_ref, 160)}", len(data))
             last = data
     rec.sample({"family": name, "scanned_twice": True, "last": last})
 
@@ -487,7 +518,7 @@ def run_unit(unit, rec):
     if kind == "threads":
         run_threads(rec, unit[1], unit[2], unit[3], unit[4])
     elif kind == "history":
-        run_history(rec, unit[1])
+        run_history(rec, unit[1], unit[2], unit[3])
     elif kind == "orders-fixture":
         run_orders_fixture(rec, unit[1], unit[2])
     elif kind == "orders-shipped":
@@ -501,7 +532,8 @@ def replay(w, rec):
     if k == "schedule":
         run_threads(rec, "quick", w["harness"], 0, 0, only_prefix=w["choices"])
     elif k == "history":
-        run_history(rec, "quick")
+        first = [i for i, e in enumerate(HIST_EVENTS) if list(e) == list(w["history"][0])]
+        run_history(rec, "quick", first[0] if first else 0, len(HIST_EVENTS))
     elif k == "order":
         run_orders_fixture(rec, 0, 1)
     elif k == "shipped-order":
